@@ -812,7 +812,9 @@ func (x *FnExec) checkCallAsserts(calleeName string, args []Val, ptypes []types.
 			}
 		}
 		nerr := len(x.errs)
+		envC.lenient = true
 		goal := envC.EvalBool(ca.E)
+		envC.lenient = false
 		src := ca.Src
 		if len(x.errs) > nerr {
 			// the assertion names something that does not exist at this call (a local defined on
